@@ -23,6 +23,7 @@ mod dist;
 mod x01;
 mod x02;
 mod x03;
+mod x04;
 
 fn main() {
     common::silence_panics();
@@ -52,6 +53,7 @@ fn main() {
                 "C17" => c17::replay(cases, verd, args.get(5)),
                 "C20" => c20::replay(cases, verd),
                 "X01" => x01::replay(cases, verd),
+                "X04" => x04::replay(cases, verd),
                 "C18" if args.get(5).map(|s| s == "extreme").unwrap_or(false) => c18::replay_extreme(cases, verd),
                 "C18" => c18::replay(cases, verd, args.get(5).and_then(|s| s.parse().ok()).unwrap_or(2)),
                 _ => {
